@@ -10,11 +10,12 @@ FIELDS = {
     'TrackExtendsBox': ['track_id', 'default_sample_description_index', 'default_sample_duration', 'default_sample_size',
                         'default_sample_flags'],
     'TrackFragmentDecodeTimeBox': ['base_media_decode_time'],
+    'TrackFragmentRunBox': ['data_offset', 'first_sample_flags'],
     'TrackFragmentHeaderBox': ['track_id', 'base_data_offset', 'sample_description_index', 'default_sample_duration',
                                'default_sample_size', 'default_sample_flags'],
 }
 FOURCC = {'MovieFragmentHeaderBox': 'mfhd', 'MovieExtendsHeaderBox': 'mehd', 'TrackExtendsBox': 'trex',
-          'TrackFragmentDecodeTimeBox': 'tfdt', 'TrackFragmentHeaderBox': 'tfhd'}
+          'TrackFragmentDecodeTimeBox': 'tfdt', 'TrackFragmentHeaderBox': 'tfhd', 'TrackFragmentRunBox': 'trun'}
 
 
 class Stream(io.BytesIO):
@@ -31,9 +32,11 @@ def build(key, variant, i):
         return {'env': env, 'old_env': old, 'call': lambda: setattr(box, 'base_media_decode_time', int(i['value']))}
     cls = getattr(mp4, variant)
     kw = {f: int(i[f]) for f in FIELDS[variant] if f in i}
+    if variant == 'TrackFragmentRunBox':
+        kw.update(sample_count=0, samples=[])
     box = cls(atom_type=FOURCC[variant], position=0, size=0, version=int(i['version']), flags=int(i['flags']), **kw)
     moof = NS(position=int(i.get('moof_position', 0)))
-    parent = NS(find_atom=lambda name: moof)
+    parent = NS(find_atom=lambda name: moof, tfhd=None)
     if variant == 'TrackFragmentHeaderBox':
         box.find_atom = lambda name: moof
     dest = Stream()
